@@ -296,3 +296,36 @@ Definition normalise (line0 : str) : str :=
    each complete line keeps its CR LF, as the code does (line + b"\r\n") *)
 Definition serial_lines (chunks : list (list Z)) : list str :=
   map (fun l => normalise (str_of_bytes (l ++ [CR; LF]))) (snd (feed_all [] chunks)).
+
+(* ---------------------------------------------------------------- commands (C02) *)
+Definition join_sp (parts : list str) : str :=
+  match parts with [] => [] | p :: ps => p ++ flat_map (fun x => sp ++ x) ps end.
+
+(* Command._from_attrs: the frame text it assembles, then Command(frame) = Frame.__init__ *)
+Definition norm_verb (v : str) : str :=
+  if str_eqb v (lit "I") then lit " I" else if str_eqb v (lit "W") then lit " W" else v.
+
+Definition attrs_text (verb seqn x0 x1 x2 code payload : str) : str :=
+  join_sp [norm_verb verb; seqn; x0; x1; x2; code; decN 3 (Z.of_nat (length payload) / 2); payload].
+
+Definition cmd_from_attrs (verb seqn x0 x1 x2 code payload : str) : result frame :=
+  match pkt_addrs x0 x1 x2 with
+  | Raise e => Raise e
+  | Ok _ => mk_frame (attrs_text verb seqn x0 x1 x2 code payload)
+  end.
+
+(* ---------------------------------------------------------------- the packet log (C02) *)
+(* PKT_LOG_FMT + BANDW_SUFFIX as _Logger.makeRecord fills them:
+   asctime ++ " RSS frame" ++ [" < msg"] ++ [" * err"] ++ [" # comment"] *)
+Definition opt_part (tag : string) (s : str) : str := match s with [] => [] | _ => lit tag ++ s end.
+Definition log_line (asctime rssi frame msg err comment : str) : str :=
+  asctime ++ sp ++ rssi ++ sp ++ frame ++ opt_part " < " msg ++ opt_part " * " err ++ opt_part " # " comment.
+
+(* FileTransport._reader on one line of a log file: (timestamp text, outcome) *)
+Definition replay_line (dtm_ok : bool) (line0 : str) : option (str * outcome) :=
+  let line := strip line0 in
+  match line with
+  | [] => None
+  | c :: _ => if Ascii.eqb c "#"%char then None
+              else Some (firstn 26 line, frame_read dtm_ok (skipn 27 line))
+  end.
